@@ -198,16 +198,32 @@ def _zipsize_of(w):
     return len(zs)
 
 
-def run_text_case(tid, text):
+def run_text_case(tid, text, channel="arg"):
     base = os.path.join(common.OUT, "sbx_%d_%d" % (os.getpid(), tid))
     shutil.rmtree(base, ignore_errors=True)
     os.makedirs(os.path.join(base, "s"))
     os.makedirs(os.path.join(base, "r"))
     try:
         w = X.XferWorld(base)
-        w.start_send(os.path.join(base, "s"), text=text)
-        w.start_receive(os.path.join(base, "r"))
-        w.run(until=w.done, max_virtual=300.0)
+        # the text reaches `wormhole send` as an argument, on standard input (--text -) or typed at its prompt
+        import builtins
+        import io
+        import sys
+        orig_stdin, orig_input = sys.stdin, builtins.input
+        if channel == "stdin":
+            sys.stdin = io.StringIO(text)
+
+            def no_more_input(prompt=""):        # standard input has been read to its end
+                raise EOFError()
+            builtins.input = no_more_input
+        elif channel == "prompt":
+            builtins.input = lambda prompt="": text
+        try:
+            w.start_send(os.path.join(base, "s"), text=text, channel=channel)
+            w.start_receive(os.path.join(base, "r"))
+            w.run(until=w.done, max_virtual=300.0)
+        finally:
+            sys.stdin, builtins.input = orig_stdin, orig_input
         out = w.recv_cfg.stdout.getvalue()
         # "reproduced exactly, up to the receiver's terminal-safe escaping": what was printed, read back as the inside of
         # a Python string literal (either quote style), is the message - and one line, no raw control characters
@@ -298,6 +314,18 @@ def run(prop, tier):
         for i, text in enumerate(texts):
             tid += 1
             records.append(run_text_case(tid, text))
+        # the other two ways a text gets into the command: what was read is what is reproduced (trailing newlines and blanks are
+        # part of what was read from standard input)
+        for text in ["hello\n", "hello", "two\nlines\n\n", "\n", " padded ", "tab\t", "ünïcode ☃\n", "'quoted'\n", "\r\n", "x" * 5000 + "\n"]:
+            tid += 1
+            rec = run_text_case(tid, text, channel="stdin")
+            rec["origin"] = "family:text-stdin"
+            records.append(rec)
+        for text in ["hello", " padded ", "'quoted'", "tab\t", "ends with backslash\\", "ünïcode ☃"]:
+            tid += 1
+            rec = run_text_case(tid, text, channel="prompt")
+            rec["origin"] = "family:text-prompt"
+            records.append(rec)
         cov["outcome_drift"] = drift
         path = wd.file("obs.ndjson")
         with open(path, "w") as f:
